@@ -138,6 +138,67 @@ def strip_corner_case(task):
     return out
 
 
+def gnu_strip(name, n):
+    """what -pN leaves of a name, the way patch(1) documents it: N times "everything up to and including the next run of slashes"; None if the name is used up"""
+    i = 0
+    for _ in range(n):
+        j = name.find('/', i)
+        if j < 0:
+            return None
+        while j < len(name) and name[j] == '/':
+            j += 1
+        i = j
+    return name[i:]
+
+
+def strip_grid_names(variants):
+    """every name of 0..3 leading components over {d, e, .} in front of the file name f; with `variants` each joint also as a double slash"""
+    import itertools
+    out = []
+    for n in range(0, 4):
+        for comps in itertools.product(('d', 'e', '.'), repeat=n):
+            for joints in (itertools.product(('/', '//'), repeat=n) if variants else [('/',) * n]):
+                out.append(''.join(c + j for c, j in zip(comps, joints)) + 'f')
+    return out
+
+
+GRID_FILES = ['f'] + ['%s/f' % '/'.join(c) for n in (1, 2, 3) for c in __import__('itertools').product(('d', 'e'), repeat=n)]
+
+
+def strip_grid_case(task):
+    """the strip count, enumerated: a file f sits at every place over {d, e}^(<=3), all with the same lines, so that the hunk fits
+    each of them and the tree shows which one -pN arrived at"""
+    name, strip, rev, threads = task
+    d = wsweep.wdir()
+    root = os.path.join(d, 'ws')
+    new_body = BODY.replace(b'l1\n', b'CHANGED\n')
+    files = {p: ((new_body if rev else BODY), 0o644) for p in GRID_FILES}
+    files['keep'] = (b'k\n', 0o644)
+    text = ('--- %s\n+++ %s\n' % (name, name)).encode() + b'@@ -1,4 +1,4 @@\n l0\n-l1\n+CHANGED\n l2\n l3\n'
+    # a patch that is fine goes first: a push that is refused touches nothing, not even that
+    patches = {'p0.patch': b'--- a/keep\n+++ b/keep\n@@ -1 +1 @@\n-k\n+K\n', 'p1.patch': text}
+    series = ['p0.patch', 'p1.patch -p%d%s' % (strip, ' -R' if rev else '')]
+    ws.make_ws(root, files, patches, series)
+    o = ws.run_rq(root, ['-a', '-q', '--backup', 'never'], threads=threads, trace=os.path.join(d, 'trace'))
+    got = ws.tree_of(ws.snapshot(root))
+    rest = gnu_strip(name, strip)
+    target = None if rest is None else '/'.join(c for c in rest.split('/') if c not in ('', '.'))
+    want = dict(files)
+    if target is not None:
+        want[target] = ((BODY if rev else new_body), 0o644)
+        want['keep'] = (b'K\n', 0o644)
+    out = {'evals': 1, 'violations': [], 'outcomes': {('strip-grid:used-up' if target is None else 'strip-grid:depth-%d' % target.count('/')) + ':exit-' + o.cls: 1}, 'nontrivial': 1}
+    tags = wsweep.cls({'strip-grid', '-p%d' % strip, 'reverse' if rev else 'forward', 'name-used-up' if target is None else 'name-left',
+                       'dot-component' if '/./' in '/' + name else 'plain-components', 'double-slash' if '//' in name else 'single-slashes', 'threads>1' if threads > 1 else 'threads=1'})
+    if o.cls != ('0' if target is not None else '1') or got != want:
+        changed = sorted(p for p in set(got) | set(files) if got.get(p) != files.get(p))
+        out['violations'].append((tags, o.cls if o.cls not in ('0', '1') else ('not-applied' if o.cls == '1' else 'wrong-file-patched'),
+                                  {'kind': 'cli', 'files': {k: [common.b2s(v[0]), v[1]] for k, v in files.items()}, 'patches': {k: common.b2s(v) for k, v in patches.items()}, 'series': series,
+                                   'args': ['-a', '-q', '--backup', 'never'], 'threads': threads, 'series_desc': '--- %s +++ %s at -p%d%s' % (name, name, strip, ' -R' if rev else ''),
+                                   'expected': ('exit 0, %s (and keep) patched' % target) if target is not None else 'exit 1, nothing touched (no name is left)', 'observed': 'exit %s, changed: %r' % (o.cls, changed), 'stderr': common.b2s(o.err[-300:])}))
+    return out
+
+
 STRIP_CORNERS = [
     # label, old name, new name, -pN, file that must be patched
     ('dot-among-the-stripped', 'x/./a/b/f', 'x/./a/b/f', 2, 'a/b/f'),
@@ -287,6 +348,18 @@ def run(tier, seed):
     acc4.finish('strip_and_choice_corners')
     res.coverage['strip_and_choice_corners']['rule'] = ('names with "." or "//" among or behind the components -pN removes (counted as written, like patch); an old (or new) name with fewer components than N; an old name that is a '
                                                        'directory: %d cases x with/without -d x threads {1,2}; decoy files at every place a miscount would land; exactly the stated file changes') % len(STRIP_CORNERS)
+    acc5 = wsweep.Acc(res)
+    gnames = strip_grid_names(tier != 'quick')
+    gtasks = [(nm, strip, rev, t) for nm in gnames for strip in range(0, 5) for rev in ((False,) if tier == 'quick' else (False, True)) for t in ((1,) if tier == 'quick' else (1, 2))]
+    for i, r in enumerate(wsweep.pmap(strip_grid_case, gtasks)):
+        if i % 299 == 0:
+            r = dict(r)
+            r['sample'] = {'name': gtasks[i][0], 'strip': gtasks[i][1], 'reverse': gtasks[i][2], 'threads': gtasks[i][3], 'outcome': sorted(r['outcomes'])}
+        acc5.add(r)
+    acc5.finish('strip_grid')
+    res.coverage['strip_grid']['rule'] = ('every name of 0..3 leading components over {d, e, .} in front of f (%d names%s) x -p0..-p4%s; a file f with the same lines at every one of the %d places over {d, e}^(<=3), behind a patch '
+                                          'that applies. Expected by the rule of patch(1): N components go, a component ends with its run of slashes, "." is a component when counting and no place when looking the file up; '
+                                          'exactly that file changes, or - nothing left of the name - exit 1 and nothing touched') % (len(gnames), ', each joint also as //' if tier != 'quick' else '', ' x -R x threads {1,2}' if tier != 'quick' else '', len(GRID_FILES))
     tasks2 = [(so, sn, kind, split, threads) for so in STATES for sn in STATES for kind in ('modify', 'create', 'delete') for split in (False, True) for threads in (1, 2)]
     # the same matrix with the set-up patch at -p0 and its names spelled ./o and ./n: "as left by earlier patches of the same run" whatever they called the file
     tasks2 += [(so, sn, kind, False, threads, True) for so in STATES for sn in STATES for kind in ('modify', 'create', 'delete') for threads in (1, 2)
